@@ -976,7 +976,7 @@ class Parser(object):
         """
         conditional_expr_noin \
             : logical_or_expr_noin
-            | logical_or_expr_noin CONDOP assignment_expr_noin COLON \
+            | logical_or_expr_noin CONDOP assignment_expr COLON \
                   assignment_expr_noin
         """
         if len(p) == 2:
